@@ -545,3 +545,7 @@ impl Thread {
         *self == Thread::Disabled
     }
 }
+
+#[cfg(loom_verif)]
+#[path = "/verif/hooks/path_verif.rs"]
+pub(crate) mod verif;
